@@ -196,6 +196,34 @@ Definition unordered (f : field) : bool :=
   | _ => false
   end.
 
+(* Well-formed stored states: the keys of every Go map are distinct; the slices kept by BuildTarget.insert (outs,
+   optional outs, each named output group, test outputs) are strictly increasing and have no empty entry. *)
+Fixpoint nodup_keys {V} (m : list (str * V)) : bool :=
+  match m with
+  | [] => true
+  | kv :: r => negb (existsb (fun kv' => str_eqb (fst kv) (fst kv')) r) && nodup_keys r
+  end.
+
+Fixpoint sorted_set (l : list str) : bool :=
+  match l with
+  | [] => true
+  | x :: r => negb (is_nil x) && match r with [] => true | y :: _ => str_ltb x y end && sorted_set r
+  end.
+
+Definition keys_ok (v : value) : bool :=
+  match v with
+  | VGroups g => nodup_keys g
+  | VLGroups g => nodup_keys g
+  | VMap m => nodup_keys m
+  | VOptMap (Some m) => nodup_keys m
+  | _ => true
+  end.
+
+Definition wfb (t : target) : bool :=
+  forallb (fun f => keys_ok (get f t)) all_fields
+  && sorted_set (t_outs t) && sorted_set (t_optional_outs t)
+  && forallb (fun g => sorted_set (snd g)) (t_named_outs t) && sorted_set (t_test_outputs t).
+
 (* ---------------------------------------------------------------------------------------------- getCommand *)
 
 (* BuildTarget.getCommand(state, commands, singleCommand):
@@ -254,8 +282,10 @@ Definition toks (t : target) (e : emit) : list str :=
   match e with
   | EStr f => [as_str (get f t)]
   | ELabelStr f => [label_string (as_label (get f t))]
-  | ECommand false => [get_command (t_config t) (t_fallback_config t) (t_commands t) (t_command t)]
-  | ECommand true => [get_command (t_config t) (t_fallback_config t) (t_test_commands t) (t_test_command t)]
+  | ECommand false => [get_command (as_str (get FConfig t)) (as_str (get FFallbackConfig t))
+                                   (as_optmap (get FCommands t)) (as_str (get FCommand t))]
+  | ECommand true => [get_command (as_str (get FConfig t)) (as_str (get FFallbackConfig t))
+                                  (as_optmap (get FTestCommands t)) (as_str (get FTestCommand t))]
   | EList f => as_list (get f t)
   | ELabels f => map label_string (as_labels (get f t))
   | ESortedLabels f => map label_string (sort_labels (as_labels (get f t)))
@@ -267,9 +297,9 @@ Definition toks (t : target) (e : emit) : list str :=
   | EBool f tv fv => [if as_bool (get f t) then tv else fv]
   | EOptBool f tv => if as_bool (get f t) then [tv] else []
   | EPassEnv sep =>
-      match t_pass_env t with
+      match as_optlist (get FPassEnv t) with
       | None => []
-      | Some names => map (fun n => n ++ sep ++ getenv (t_environ t) n) names
+      | Some names => map (fun n => n ++ sep ++ getenv (as_map (get FEnviron t)) n) names
       end
   | EConst b => [b]
   end.
@@ -277,7 +307,7 @@ Definition toks (t : target) (e : emit) : list str :=
 Definition enc (t : target) (e : emit) : str := concat (toks t e).
 
 Definition cond_holds (rt : bool) (t : target) (c : cond) : bool :=
-  match c with CRuntime => rt | CIsTest => t_is_test t end.
+  match c with CRuntime => rt | CIsTest => as_bool (get FIsTest t) end.
 
 Definition item_toks (rt : bool) (t : target) (it : item) : list str :=
   if forallb (cond_holds rt t) (fst it) then toks t (snd it) else [].
